@@ -1,14 +1,179 @@
-import Capella.Model.Git
+import Capella.Lemmas.GitTxn
 
 /-!
 # C16 — saving to a git repository creates exactly one faithful commit, or none
+
+Property theorems only; the model is `Capella/Model/Git.lean`, helper lemmas live in
+`Capella/Lemmas/Git.lean` and `Capella/Lemmas/GitTxn.lean`.
+
+Reading guide. `transaction fault rev o body s` is `with handler.write_transaction(**o): body` on a
+handler whose `revision` is `rev`; `s` holds the repository (commits, refs) and the handler's private
+work tree (`head`, `index`, `files`); `fault` names the git command that fails, if any.
+`Valid s` says the handler is between transactions with a clean work tree (`git status` empty);
+`Restored s s'` says refs, HEAD, files and index content are as in `s` and no transaction is open.
+`writeOps ws` is a body that writes and closes the files `ws` (in order; later writes win).
 -/
 namespace Capella.Props.C16
 open Capella.Git
 
+variable {P : Type} [DecidableEq P]
+
+/-- **A successful save is exactly one faithful commit.** Exactly one commit is appended; its parent is
+the commit the handler was at; its tree is the parent's tree with exactly the written paths replaced
+by the written bytes; only the target ref moves, to the new commit; the work tree follows and is
+clean again (so the statement applies to the next transaction as well). -/
+theorem commit_spec (rev : Str) (o : Opts) (ws : List (P × Bytes)) (s : St P) (hv : Valid s)
+    (hobj : objectLike (o.remoteBranch.getD rev) = false) (hd : o.dry = false)
+    (hn : o.ignoreEmpty = false ∨ (applyWrites ws s.index).same (treeOf s s.head) = false) :
+    let r := transaction none rev o (writeOps ws) s
+    r.2 = none ∧
+    (∃ k, r.1.commits = s.commits ++ [k] ∧ k.parent = some s.head ∧
+      ∀ q, k.tree.get q = match lastWrite ws q with
+        | some c => some c
+        | none => (treeOf s s.head).get q) ∧
+    r.1.refs = setRef s.refs (qualify (o.remoteBranch.getD rev)) s.commits.length ∧
+    r.1.head = s.commits.length ∧ Valid r.1 := by
+  obtain ⟨h1, h2, h3, h4, h5⟩ := commit_spec' rev o ws s hv hobj hd hn
+  exact ⟨h1, ⟨_, h2, rfl, fun q => writes_index_get ws s hv q⟩, h3, h4, h5⟩
+
+/-- The condition of `commit_spec` holds as soon as one written file differs from the parent's. -/
+theorem changed_means_commit (ws : List (P × Bytes)) (s : St P) (p : P) (b : Bytes)
+    (hl : lastWrite ws p = some b) (hne : (treeOf s s.head).get p ≠ some b) :
+    (applyWrites ws s.index).same (treeOf s s.head) = false :=
+  changed_not_same ws s p b hl hne
+
+/-- **A save that changes no file creates no commit**: no new commit object, no ref moves, work
+tree as before. -/
+theorem empty_no_commit (rev : Str) (o : Opts) (ws : List (P × Bytes)) (s : St P) (hv : Valid s)
+    (hobj : objectLike (o.remoteBranch.getD rev) = false) (hi : o.ignoreEmpty = true)
+    (hsame : ∀ w ∈ ws, (treeOf s s.head).get w.1 = some w.2) :
+    let r := transaction none rev o (writeOps ws) s
+    r.2 = none ∧ Restored s r.1 ∧ r.1.commits = s.commits ∧ Valid r.1 :=
+  empty_no_commit' rev o ws s hv hobj hi hsame
+
+/-- **Abort at every point.** Whatever the body does (writes, files left open, half-written files, a
+nested transaction, a missing directory) — if it ends with an error, the caller sees that error, no
+commit is created, no ref moves, and HEAD, index and files are as before. -/
+theorem abort_restores (rev : Str) (o : Opts) (body : List (Op P)) (s : St P) (hv : Valid s)
+    (hobj : objectLike (o.remoteBranch.getD rev) = false) (e : Err)
+    (hb : (runBody none (objectLike rev) body (entered s)).2 = some e) :
+    let r := transaction none rev o body s
+    r.2 = some e ∧ Restored s r.1 ∧ r.1.commits = s.commits ∧ Valid r.1 :=
+  abort_restores' rev o body s hv hobj e hb
+
+/-- in particular: any body cut off after any number of operations by an exception -/
+theorem abort_at_every_point (rev : Str) (o : Opts) (body : List (Op P)) (k : Nat) (s : St P) (hv : Valid s)
+    (hobj : objectLike (o.remoteBranch.getD rev) = false) :
+    let r := transaction none rev o (body.take k ++ [Op.raise]) s
+    r.2 ≠ none ∧ Restored s r.1 ∧ r.1.commits = s.commits ∧ Valid r.1 := by
+  obtain ⟨e, he⟩ := runBody_append_raise none (objectLike rev) (body.take k) (entered s)
+  have := abort_restores' rev o _ s hv hobj e he
+  exact ⟨by rw [this.1]; simp, this.2⟩
+
+/-- **Dry run**: a commit object is created but no ref moves and the work tree is restored. -/
+theorem dry_run_restores (rev : Str) (o : Opts) (ws : List (P × Bytes)) (s : St P) (hv : Valid s)
+    (hobj : objectLike (o.remoteBranch.getD rev) = false) (hd : o.dry = true)
+    (hn : o.ignoreEmpty = false ∨ (applyWrites ws s.index).same (treeOf s s.head) = false) :
+    let r := transaction none rev o (writeOps ws) s
+    r.2 = none ∧ Restored s r.1 ∧ (∃ k, r.1.commits = s.commits ++ [k]) ∧ Valid r.1 :=
+  dry_run_restores' rev o ws s hv hobj hd hn
+
+/-- **Any git command may fail** (`rev-parse`, `add`, `write-tree`, `cat-file`, `commit-tree`,
+`reset --soft`, `update-ref`), for any body: either the transaction commits, or everything is
+restored — unless the command that is refused is the roll-back itself (`reset --hard` / `clean`). -/
+theorem git_failure_restores (fault : Option Nat) (rev : Str) (o : Opts) (body : List (Op P)) (s : St P)
+    (hv : Valid s) (hobj : objectLike (o.remoteBranch.getD rev) = false) :
+    let r := transaction fault rev o body s
+    (r.2 = none ∧ o.dry = false ∧
+      r.1.refs = setRef s.refs (qualify (o.remoteBranch.getD rev)) s.commits.length) ∨
+    Restored s r.1 ∨
+    (r.2 = some .gitfail ∧ (r.1.trace.head? = some .resetHard ∨ r.1.trace.head? = some .clean)) :=
+  restored_unless_committed fault rev o body s hv hobj
+
+/-- In every case — any failing command, the roll-back included — the handler can start a new
+transaction afterwards, and a ref only ever moves when the transaction reports success. -/
+theorem handler_usable_refs_safe (fault : Option Nat) (rev : Str) (o : Opts) (body : List (Op P)) (s : St P)
+    (ho : s.txnOpen = false) :
+    let r := transaction fault rev o body s
+    r.1.txnOpen = false ∧
+    (r.1.refs = s.refs ∨ (r.2 = none ∧ o.dry = false ∧
+      r.1.refs = setRef s.refs (qualify (o.remoteBranch.getD rev)) s.commits.length)) :=
+  txn_closed_refs_safe fault rev o body s ho
+
+/-- A target that looks like a git object name (`remote_branch`, or the handler's revision when no
+`remote_branch` is given) is refused before anything happens. -/
+theorem refuses_objectlike_ref (fault : Option Nat) (rev : Str) (o : Opts) (body : List (Op P)) (s : St P)
+    (hobj : objectLike (o.remoteBranch.getD rev) = true) :
+    let r := transaction fault rev o body s
+    r.2 = some .objectlike ∧ r.1.commits = s.commits ∧ r.1.refs = s.refs ∧ r.1.head = s.head ∧
+    r.1.index = s.index ∧ r.1.files = s.files ∧ r.1.txnOpen = s.txnOpen :=
+  objectlike_refused fault rev o body s hobj
+
+/-- A handler opened on a commit hash cannot commit without `remote_branch`: a name of at least four
+hex digits (a 40-digit hash in particular) is object-like. -/
+theorem hash_is_objectlike (s : Str) (h4 : 4 ≤ s.length) (hx : s.all isHex = true) (hs : '/' ∉ s) :
+    objectLike s = true :=
+  hex_objectLike s h4 hx hs
+
 /-- Writing through the handler needs a transaction; the refusal changes nothing. -/
-theorem write_needs_txn {P : Type} (s : St P) (h : s.txnOpen = false) :
-    openWrite s = (s, some .needsTxn) := by
+theorem write_needs_txn (s : St P) (h : s.txnOpen = false) : openWrite s = (s, some .needsTxn) := by
   simp [openWrite, h]
+
+/-! ## The pinned code before the repairs did not have the property -/
+
+section witness
+def w_s : St Nat :=
+  { commits := [{ parent := none, tree := [(1, [10]), (2, [20])] }], refs := [("refs/heads/master".toList, 0)],
+    head := 0, index := [(1, [10]), (2, [20])], files := Tree.get [(1, [10]), (2, [20])],
+    txnOpen := false, calls := 0, trace := [] }
+def w_rev : Str := "refs/heads/master".toList
+end witness
+
+/-- before `fix: roll back the git work tree …`: after a dry run the index keeps the written file, and
+the next real commit on the same handler contains it although that transaction wrote another file -/
+theorem pinned_dry_run_leaks :
+    let r1 := transactionOld none w_rev { dry := true } (writeOps [(1, [11])]) w_s
+    let r2 := transactionOld none w_rev {} (writeOps [(2, [21])]) r1.1
+    r1.1.index.get 1 = some [11] ∧ r2.2 = none ∧ (treeOf r2.1 r2.1.head).get 1 = some [11] := by
+  decide
+
+/-- before `fix: commit on top of the work tree HEAD …`: two saves to the same `remote_branch` both
+get the original commit as parent -/
+theorem pinned_remote_branch_parent :
+    let o : Opts := { remoteBranch := some "out".toList }
+    let r1 := transactionOld none w_rev o (writeOps [(1, [11])]) w_s
+    let r2 := transactionOld none w_rev o (writeOps [(2, [21])]) r1.1
+    r1.1.head = 1 ∧ (r2.1.commits[2]?).map (·.parent) = some (some 0) := by
+  decide
+
+/-! ## Non-vacuity -/
+
+example : Valid w_s := by
+  refine ⟨rfl, by decide, ?_, ?_⟩ <;> intro p <;> rfl
+
+/-- the repaired code on the same histories: the second commit's parent is the first, and a dry run
+leaks nothing -/
+example :
+    let o : Opts := { remoteBranch := some "out".toList }
+    let r1 := transaction none w_rev o (writeOps [(1, [11])]) w_s
+    let r2 := transaction none w_rev o (writeOps [(2, [21])]) r1.1
+    (r2.1.commits[2]?).map (·.parent) = some (some 1) ∧ r2.1.refs.head? = some ("refs/heads/out".toList, 2) := by
+  decide
+
+example :
+    let r1 := transaction none w_rev { dry := true } (writeOps [(1, [11])]) w_s
+    let r2 := transaction none w_rev {} (writeOps [(2, [21])]) r1.1
+    r1.1.index.get 1 = some [10] ∧ (treeOf r2.1 r2.1.head).get 1 = some [10] ∧
+    (treeOf r2.1 r2.1.head).get 2 = some [21] := by
+  decide
+
+example : objectLike "refs/heads/deadbeef".toList = true ∧ objectLike "FETCH_HEAD".toList = true ∧
+    objectLike "refs/heads/master".toList = false ∧ objectLike "dea".toList = false := by decide
+
+/-- `commit-tree` fails (index 4: rev-parse, add, write-tree, cat-file, commit-tree): restored -/
+example :
+    let r := transaction (some 4) w_rev {} (writeOps [(1, [11])]) w_s
+    r.2 = some .gitfail ∧ r.1.index.get 1 = some [10] ∧ r.1.files 1 = some [10] ∧ r.1.refs = w_s.refs := by
+  decide
 
 end Capella.Props.C16
